@@ -178,7 +178,12 @@ def stringify_node(
         return stringify_literal(graph, node, ns_manager=ns_manager)
     if isinstance(node, rdflib.BNode):
         if isinstance(graph, (rdflib.ConjunctiveGraph, rdflib.Dataset)):
-            graph = find_node_named_graph(graph, node)
+            try:
+                graph = find_node_named_graph(graph, node)
+            except LookupError:
+                # A blank node that no graph of the dataset mentions (e.g. a sh:targetNode value that exists in the
+                # shapes graph only): it has no description here, like in a plain Graph.
+                graph = graph.default_context
         return stringify_blank_node(graph, node, ns_manager=ns_manager, recursion=recursion + 1)
     if isinstance(node, rdflib.URIRef):
         try:
